@@ -2,39 +2,60 @@
 """Both-ways test of the checker itself (still static: the subject of each run
 is source text; nothing of the crate is executed).
 
-  selftest/run.py [--only name,...] [--props C01,C02] [--benign] [--jobs N]
+  selftest/run.py [--only name,...] [--props C01,C02] [--benign] [--jobs N] [-v]
 
 For every mutant (one broken rule instance, applied by exact string
-replacement to a scratch copy of /repo under .work/) the listed checks must
-report a violation whose key starts with one of the expected rule ids; for every
-benign refactor all checks must stay silent."""
-import json
+replacement to a scratch copy of the current /repo tree under .work/) the
+listed checks must report a violation whose key starts with one of the
+expected rule ids; for every benign refactor all listed checks must stay
+silent."""
 import os
 import shutil
 import subprocess
 import sys
-import hashlib
+from concurrent.futures import ThreadPoolExecutor
+import threading
 
 VERIF = os.path.dirname(os.path.dirname(os.path.abspath(__file__)))
-REPO = os.environ.get('FI_REPO', '/repo')
 sys.path.insert(0, os.path.dirname(os.path.abspath(__file__)))
 from mutants import MUTANTS, BENIGN  # noqa
 
+_tls = threading.local()
+_ids = iter(range(10000))
+_lock = threading.Lock()
 
-def scratch(name):
-    d = os.path.join(VERIF, '.work', 'scratch', name)
+
+def repo_dir():
+    return os.environ.get('FI_REPO', '/repo')
+
+
+def worker_dir():
+    if not hasattr(_tls, 'dir'):
+        with _lock:
+            i = next(_ids)
+        _tls.dir = os.path.join(VERIF, '.work', 'scratch', 'w%d' % i)
+    return _tls.dir
+
+
+def scratch():
+    d = worker_dir()
     if os.path.isdir(d):
         shutil.rmtree(d)
     os.makedirs(d)
-    for f in sorted(os.listdir(REPO)):
+    repo = repo_dir()
+    for f in sorted(os.listdir(repo)):
         if f in ('target', '.git'):
             continue
-        s = os.path.join(REPO, f)
+        s = os.path.join(repo, f)
         if os.path.isdir(s):
             shutil.copytree(s, os.path.join(d, f))
         else:
             shutil.copy(s, os.path.join(d, f))
     return d
+
+
+class NotApplicable(Exception):
+    pass
 
 
 def apply(d, m):
@@ -45,13 +66,13 @@ def apply(d, m):
         cnt = s.count(e['old'])
         want = e.get('count', 1)
         if cnt != want:
-            raise RuntimeError('mutant %s: pattern occurs %d times (want %d) in %s' % (m['name'], cnt, want, e['file']))
+            raise NotApplicable('mutant %s: pattern occurs %d times (want %d) in %s' % (m['name'], cnt, want, e['file']))
         s = s.replace(e['old'], e['new'])
         open(p, 'w').write(s)
 
 
 def run_check(prop, d, tier='quick'):
-    env = dict(os.environ, FI_REPO=d, FI_EVID_DIR=os.path.join(d, 'evidence'))
+    env = dict(os.environ, FI_REPO=d, FI_EVID_DIR=os.path.join(d, 'evidence'), FI_SELFTEST='1')
     r = subprocess.run([os.path.join(VERIF, 'check'), prop, '--tier', tier], env=env, cwd=VERIF,
                        stdout=subprocess.PIPE, stderr=subprocess.STDOUT, text=True)
     keys = []
@@ -62,53 +83,88 @@ def run_check(prop, d, tier='quick'):
     return r.returncode, keys, r.stdout
 
 
-def main():
-    only = None
-    props_filter = None
-    do_benign = '--benign' in sys.argv
-    if '--only' in sys.argv:
-        only = sys.argv[sys.argv.index('--only') + 1].split(',')
-    if '--props' in sys.argv:
-        props_filter = sys.argv[sys.argv.index('--props') + 1].split(',')
-    results = []
-    bad = 0
-    todo = [(m, False) for m in MUTANTS]
-    if do_benign or only:
-        todo += [(m, True) for m in BENIGN]
-    for m, benign in todo:
-        if only and m['name'] not in only:
-            continue
-        if not only and benign != do_benign:
-            continue
-        d = scratch('m')
+def one(job):
+    m, benign, props = job
+    out = []
+    d = scratch()
+    try:
         try:
             apply(d, m)
-        except RuntimeError as e:
-            print('MUTANT-ERROR', e)
-            bad += 1
-            continue
-        expect = m.get('expect', {})
-        props = sorted(expect) if not benign else m.get('props', [])
-        if props_filter:
-            props = [p for p in props if p in props_filter]
+        except NotApplicable as e:
+            return [{'name': m['name'], 'prop': None, 'ok': None, 'note': str(e), 'benign': benign}]
         for prop in props:
-            rc, keys, out = run_check(prop, d)
+            rc, keys, text = run_check(prop, d)
             if benign:
                 ok = rc == 0
-                print('%-7s benign %-40s %s rc=%d %s' % ('ok' if ok else 'FAIL', m['name'], prop, rc, keys[:2]))
             else:
-                want = expect[prop]
+                want = m['expect'][prop]
                 hit = [k for k in keys if any(k.startswith(w) for w in want)]
                 ok = rc == 1 and bool(hit)
-                print('%-7s mutant %-40s %s rc=%d expect=%s got=%s' % (
-                    'killed' if ok else 'MISSED', m['name'], prop, rc, want, [k.split('|')[0] for k in keys][:4]))
-                if not ok and '-v' in sys.argv:
-                    print(out[-2500:])
-            if not ok:
-                bad += 1
-            results.append({'name': m['name'], 'prop': prop, 'ok': ok, 'keys': keys})
+            out.append({'name': m['name'], 'prop': prop, 'ok': ok, 'rc': rc, 'keys': keys, 'benign': benign,
+                        'want': None if benign else m['expect'][prop], 'text': text[-2500:]})
+    finally:
         shutil.rmtree(d, ignore_errors=True)
-    print('%d runs, %d bad' % (len(results), bad))
+    return out
+
+
+def run_all(props_filter=None, only=None, benign=None, jobs=8):
+    """benign: None = both, True = only benign, False = only mutants"""
+    todo = []
+    if benign in (None, False):
+        for m in MUTANTS:
+            if only and m['name'] not in only:
+                continue
+            props = sorted(m.get('expect', {}))
+            if props_filter:
+                props = [p for p in props if p in props_filter]
+            if props:
+                todo.append((m, False, props))
+    if benign in (None, True):
+        for m in BENIGN:
+            if only and m['name'] not in only:
+                continue
+            props = list(m.get('props', []))
+            if props_filter:
+                props = [p for p in props if p in props_filter]
+            if props:
+                todo.append((m, True, props))
+    results = []
+    with ThreadPoolExecutor(max_workers=jobs) as ex:
+        for r in ex.map(one, todo):
+            results += r
+    return results
+
+
+def main():
+    only = props_filter = None
+    benign = False
+    if '--benign' in sys.argv:
+        benign = True
+    if '--all' in sys.argv:
+        benign = None
+    if '--only' in sys.argv:
+        only = sys.argv[sys.argv.index('--only') + 1].split(',')
+        benign = None
+    if '--props' in sys.argv:
+        props_filter = sys.argv[sys.argv.index('--props') + 1].split(',')
+    jobs = int(sys.argv[sys.argv.index('--jobs') + 1]) if '--jobs' in sys.argv else 8
+    results = run_all(props_filter, only, benign, jobs)
+    bad = 0
+    for r in results:
+        if r['ok'] is None:
+            print('SKIPPED %s: %s' % (r['name'], r['note']))
+            continue
+        if r['benign']:
+            print('%-7s benign %-45s %s rc=%d %s' % ('ok' if r['ok'] else 'FAIL', r['name'], r['prop'], r['rc'], r['keys'][:2]))
+        else:
+            print('%-7s mutant %-45s %s rc=%d expect=%s got=%s' % (
+                'killed' if r['ok'] else 'MISSED', r['name'], r['prop'], r['rc'], r['want'],
+                [k.split('|')[0] for k in r['keys']][:4]))
+        if not r['ok']:
+            bad += 1
+            if '-v' in sys.argv:
+                print(r['text'])
+    print('%d runs, %d bad' % (len([r for r in results if r['ok'] is not None]), bad))
     return 1 if bad else 0
 
 
